@@ -7,7 +7,11 @@
    request:  put <c|l> <h> <top> <xrow> <count> <hex pref> <hex post> <hex register> <old row ids> <new row ids>
              (DrawPutDefs.vc_put_chars / vc_put_lines + put_screen: the rows are abstract -- integer ids; <old row ids> are the h rows
              shown before the put, <new row ids> what vi_drawrow draws for the rows top .. top+h-1 of the buffer after it)
-   answer:   <r1> <r2> <n> <hex line>,<hex line>,...|<predicted row ids>     (the vi_drawfix arguments, the lines the text is cut into) *)
+   answer:   <r1> <r2> <n> <hex line>,<hex line>,...|<predicted row ids>     (the vi_drawfix arguments, the lines the text is cut into)
+   request:  region <rows> <cols> <beg> <cnt> <reinit 0|1> <cached 0|1>
+             (TermOutDefs: term_window(beg, cnt) on a fresh terminal, then -- reinit = 1 -- term_done(); term_init(); with term.c's
+             term_window (cached = 0) or the variant that trusts the copy (cached = 1))
+   answer:   <top> <bot> <err> <hex of the bytes written>     (the emulator's region afterwards) *)
 let pr = Printf.printf
 let ints s = List.map int_of_string (List.filter (fun w -> w <> "") (String.split_on_char ',' s))
 let do_put mode h top xrow cnt pref post reg olds news =
@@ -62,6 +66,13 @@ let () =
          pr "%d %d\n" (int_of_z t) (int_of_z (fix_left (z pleft) (z pos) (z cols)))
        | ["put"; mode; h; top; xrow; cnt; pref; post; reg; olds; news] ->
          do_put mode (int_of_string h) (int_of_string top) (int_of_string xrow) (int_of_string cnt) pref post reg olds news
+       | ["region"; rows; cols; beg; cnt; re; cached] ->
+         let n s = nat_of_int (int_of_string s) in
+         let w = { win_beg = n beg; win_rows = n cnt } in
+         let o1 = term_window_out (n rows) (n beg) (n cnt) in
+         let o2 = if re = "1" then snd (reinit_out (cached = "1") (n rows) w) else [] in
+         let t = run (run (term_new (n rows) (n cols)) o1) o2 in
+         pr "%d %d %d %s\n" (int_of_nat t.t_top) (int_of_nat t.t_bot) (int_of_nat t.t_err) (hex_of_bytes (o1 @ o2))
        | ["wid"; c] -> pr "%d\n" (int_of_nat (cp_wid (n_of_int (int_of_string c))))
        | _ -> pr "error bad request\n");
       flush stdout)
